@@ -156,3 +156,11 @@ Fixpoint depth_inst (x : hinst) : nat :=
   | ISub _ _ _ body _ => S (fold_right (fun y a => Nat.max (depth_inst y) a) 0%nat body)
   end.
 Definition depth (t : hmod) : nat := fold_right (fun y a => Nat.max (depth_inst y) a) 0%nat (h_body t).
+
+(* a connection flatten does not support (slice, concatenation) somewhere in the hierarchy *)
+Definition other_conn (c : name * hconn) : bool := match snd c with COther => true | CSig _ => false end.
+Fixpoint has_other (x : hinst) : bool :=
+  match x with
+  | ILeaf _ _ _ c => existsb other_conn c
+  | ISub _ _ _ body c => existsb other_conn c || existsb has_other body
+  end.
